@@ -115,7 +115,7 @@ func filler(r *rng, n int) []byte {
 func randBody(r *rng, window int) (body []byte, note string) {
 	var sb bytes.Buffer
 	m := randCase(r, pick(r, c20Markers))
-	shape := r.n(12)
+	shape := r.n(13)
 	switch shape {
 	case 0: // no marker at all
 		sb.Write(filler(r, r.n(300)))
@@ -177,6 +177,13 @@ func randBody(r *rng, window int) (body []byte, note string) {
 		sb.WriteString(m + ">")
 		sb.WriteString(randCase(r, pick(r, c20Markers)))
 		note = fmt.Sprintf("straddling marker at %d", pos)
+	case 11: // a body that is VALID UTF-8 with multi-byte characters: the marker's byte offset is at or beyond the window
+		// although fewer than `window` characters precede it (the window is counted in bytes of the body)
+		for sb.Len() < window+r.n(64) {
+			sb.WriteString(pick(r, []string{"\u00e9", "\u0416", "\u20ac", "a", "\u4e2d"}))
+		}
+		sb.WriteString(m + ">")
+		note = fmt.Sprintf("valid UTF-8 body, marker at byte %d", sb.Len()-len(m)-1)
 	default: // html-like page
 		sb.WriteString("<!DOCTYPE html><html>")
 		sb.Write(filler(r, r.n(50)))
@@ -235,6 +242,27 @@ func genC20Html(r *rng, n int, w *bufio.Writer) {
 			return fmt.Sprintf("%s|%d|%s|%s", wb(string(out)), cl, wbool(ce), csp)
 		})
 		fmt.Fprintf(w, "c20.html %s %s %s = %s ## len=%d gzip=%v %s\n", wb(string(body)), wbool(useGz), wb(tag), ans, len(body), useGz, note)
+		if i%5 == 0 {
+			// two responses in flight: A is filtered, B is filtered BEFORE A's new body is read; A must still be A
+			bodyB, _ := randBody(r, window)
+			pair := guardStr(func() string {
+				readA, _, _, errA := proxy.VerifFilterHTMLDeferred(body, http.Header{"Content-Type": {"text/html"}}, host)
+				readB, _, _, errB := proxy.VerifFilterHTMLDeferred(bodyB, http.Header{"Content-Type": {"text/html"}}, host)
+				outA1, _, _, _, errA1 := proxy.VerifFilterHTML(body, http.Header{"Content-Type": {"text/html"}}, host)
+				if errA != nil || errB != nil || errA1 != nil {
+					return "err"
+				}
+				outA, e1 := readA()
+				_, e2 := readB()
+				if e1 != nil || e2 != nil {
+					return "err"
+				}
+
+				return wbool(bytes.Equal(outA, outA1))
+			})
+			fmt.Fprintf(w, "assert c20.inflight %s %s = %s ## response A (len %d) filtered, then B (len %d), then A read: A's body must be what filtering A alone gives\n",
+				wb(fmt.Sprint(len(body))), wb(fmt.Sprint(len(bodyB))), pair, len(body), len(bodyB))
+		}
 		if i%4 == 0 {
 			// charmap.ISO8859_1 decoding: byte b is the code point U+00bb
 			rs := make([]rune, len(body))
